@@ -170,3 +170,141 @@ Definition dc_spec_violation (c : dcase) : bool :=
        end.
 Definition dc_check_all (cs : list dcase) : list Z * list Z :=
   (map (fun c => c_id (dc_case c)) (filter dc_mismatch cs), map (fun c => c_id (dc_case c)) (filter dc_spec_violation cs)).
+
+Open Scope Z_scope.
+(* ---------------------------------------------------------------- Datadog metrics: datadogMetricsJsonUnmarshal.go *)
+(* MaybeString / MaybeObj / MaybeArr return without consuming a value of another type, so the object loop of jx fails on
+   the value left behind: a member of the wrong type is an error here too *)
+
+(* one resource object: every member a string; labels resource<i>_<key> *)
+Definition resource_object (v : jv) : option labels :=
+  match v with
+  | JObj ms => all_some (fun kv => match snd kv with JStr s => Some (fst kv, s) | _ => None end) ms
+  | _ => None
+  end.
+
+(* the points array: timestamp and value are variables of the enclosing function, so a point object without one of them
+   repeats what the point before it had (value 0 / the clock for the first point: None = not modelled) *)
+Fixpoint point_members (ms : list (string * jv)) (st : option Z * N) : option (option Z * N) :=
+  match ms with
+  | [] => Some st
+  | (k, v) :: r =>
+    if String.eqb k "timestamp" then
+      match v with JNum _ (Some z) => point_members r (Some z, snd st) | _ => None end
+    else if String.eqb k "value" then
+      match v with JNum b _ => point_members r (fst st, b) | _ => None end
+    else point_members r st
+  end.
+Inductive walked (A : Type) := WErr | WUnmodelled | WOk (x : A).
+Arguments WErr {A}. Arguments WUnmodelled {A}. Arguments WOk {A} x.
+
+Fixpoint points_array (els : list jv) (st : option Z * N) (acc : list (Z * N)) : walked (list (Z * N) * (option Z * N)) :=
+  match els with
+  | [] => WOk (acc, st)
+  | JObj ms :: r =>
+    match point_members ms st with
+    | None => WErr
+    | Some (Some z, b) => points_array r (Some z, b) (acc ++ [(z, b)])
+    | Some (None, _) => WUnmodelled                        (* time.Now() *)
+    end
+  | _ :: _ => WErr
+  end.
+
+(* what the members of one series object add up to: the metric names, the resource arrays, the points *)
+Record sacc := SA { sa_names : list string; sa_resources : list (list labels); sa_points : list (Z * N) }.
+Fixpoint series_members (ms : list (string * jv)) (a : sacc) : walked sacc :=
+  match ms with
+  | [] => WOk a
+  | (k, v) :: r =>
+    if String.eqb k "metric" then
+      match v with JStr s => series_members r (SA (sa_names a ++ [s]) (sa_resources a) (sa_points a)) | _ => WErr end
+    else if String.eqb k "resources" then
+      match v with
+      | JArr els => match all_some resource_object els with
+                    | Some rs => series_members r (SA (sa_names a) (sa_resources a ++ [rs]) (sa_points a))
+                    | None => WErr
+                    end
+      | _ => WErr
+      end
+    else if String.eqb k "points" then
+      match v with
+      | JArr els => match points_array els (None, 0%N) [] with    (* the two variables start afresh for every points member *)
+                    | WOk (ps, _) => series_members r (SA (sa_names a) (sa_resources a) (sa_points a ++ ps))
+                    | WErr => WErr
+                    | WUnmodelled => WUnmodelled
+                    end
+      | _ => WErr
+      end
+    else series_members r a
+  end.
+
+(* the ddseries record of model/Decode.v carries one optional name and one resources array (label order is irrelevant to
+   the tie: label lists are looked up as multisets); a series object with several of either is not modelled *)
+Definition series_of_acc (a : sacc) : walked ddseries :=
+  match sa_names a, sa_resources a with
+  | [], [] => WOk (DS None [] (sa_points a))
+  | [n], [] => WOk (DS (Some n) [] (sa_points a))
+  | [], [rs] => WOk (DS None rs (sa_points a))
+  | [n], [rs] => WOk (DS (Some n) rs (sa_points a))
+  | _, _ => WUnmodelled
+  end.
+Definition series_object (v : jv) : walked ddseries :=
+  match v with
+  | JObj ms => match series_members ms (SA [] [] []) with WOk a => series_of_acc a | WErr => WErr | WUnmodelled => WUnmodelled end
+  | _ => WErr
+  end.
+(* an error in series k comes after the series before it were handed on; for the request as a whole: an error wins over
+   a series that is not modelled only if it comes first -- either way the request is not compared unless every series is
+   modelled or the first problem is an error *)
+Fixpoint series_array (els : list jv) : walked (list ddseries) :=
+  match els with
+  | [] => WOk []
+  | v :: r => match series_object v with
+              | WErr => WErr
+              | WUnmodelled => WUnmodelled
+              | WOk s => match series_array r with WOk l => WOk (s :: l) | WErr => WErr | WUnmodelled => WUnmodelled end
+              end
+  end.
+Fixpoint ddmet_top (ms : list (string * jv)) : walked (list ddseries) :=
+  match ms with
+  | [] => WOk []
+  | (k, v) :: r =>
+    if String.eqb k "series" then
+      match v with
+      | JArr els => match series_array els with
+                    | WOk a => match ddmet_top r with WOk b => WOk (a ++ b) | WErr => WErr | WUnmodelled => WUnmodelled end
+                    | WErr => WErr
+                    | WUnmodelled => WUnmodelled
+                    end
+      | _ => WErr
+      end
+    else ddmet_top r
+  end.
+Definition ddmet_document (doc : jv) : walked (list ddseries) := match doc with JObj ms => ddmet_top ms | _ => WErr end.
+
+Record mcase := MCase { mc_case : case; mc_doc : jv; mc_written : bool }.
+Definition with_mbody (c : case) (l : list ddseries) : case :=
+  Case (c_id c) (BDDMet l) (c_ctx_ttl c) (c_cache c) (c_tab c) (c_obs c) (c_err c).
+Definition ostr_eqb_strict (a b : option string) : bool :=
+  match a, b with Some x, Some y => String.eqb x y | None, None => true | _, _ => false end.
+Definition ddseries_eqb (a b : ddseries) : bool :=
+  ostr_eqb_strict (dm_metric a) (dm_metric b) && list_eqb labels_eqb (dm_resources a) (dm_resources b) &&
+  list_eqb (fun p q => (fst p =? fst q) && (snd p =? snd q)%N) (dm_points a) (dm_points b).
+
+(* an absent "resources" member and an empty array give the same labels *)
+Definition mc_mismatch (c : mcase) : bool :=
+  match ddmet_document (mc_doc c) with
+  | WErr => negb (is_error (c_err (mc_case c)))
+  | WUnmodelled => false
+  | WOk l =>
+    (mc_written c && negb (match c_body (mc_case c) with BDDMet l0 => list_eqb ddseries_eqb l l0 | _ => false end))
+    || model_mismatch (with_mbody (mc_case c) l)
+  end.
+Definition mc_spec_violation (c : mcase) : bool :=
+  if mc_written c then spec_violation (mc_case c)
+  else match ddmet_document (mc_doc c) with
+       | WOk l => negb (is_error (c_err (mc_case c))) && spec_violation (with_mbody (mc_case c) l)
+       | _ => false
+       end.
+Definition mc_check_all (cs : list mcase) : list Z * list Z :=
+  (map (fun c => c_id (mc_case c)) (filter mc_mismatch cs), map (fun c => c_id (mc_case c)) (filter mc_spec_violation cs)).
